@@ -12,4 +12,10 @@ OpsC09 ==
                   <<"managed_objects", "prv">>, <<"crypto_objects", "prv">>, <<"keys", "prv">>, <<"private_keys", "prv">>>>,
      activate |-> <<<<"crypto_objects.state", "k1">>>>,
      destroy  |-> <<<<"managed_objects.deleted", "k1">>>>]
+\* start-up creates the tables in this order (the ORM's metadata order; the first one is the base table)
+TablesC09 == <<"managed_objects", "crypto_objects", "keys", "symmetric_keys", "public_keys", "private_keys", "managed_object_names",
+               "opaque_objects">>
+\* an opaque object has no row in crypto_objects
+OpsC09b == [create |-> OpsC09.create, activate |-> OpsC09.activate,
+            opaque |-> <<<<"managed_objects", "o1">>, <<"opaque_objects", "o1">>>>]
 =============================================================================
